@@ -80,8 +80,71 @@ def _thread_local_boundary(ctx, mod):
             if any(isinstance(c.func, ast.Attribute) and c.func.attr == "update" and c.args and isinstance(c.args[0], ast.Name) and c.args[0].id in params and (root(c.func.value) is not None or (isinstance(c.func.value, ast.Name) and any(d.value is not None and root(d.value) is not None for d in defs.get(c.func.value.id, [])))) for c in calls_in(f)):
                 n += 1
                 ctx.ob("R5", f"{EN}:{cname}.{nm}", "installs the caller's values by copying them into the thread's own container", True, key=f"{cname}.{nm}|install-by-copy")
-    if n < 2:
+    if n < 2 and not ctx.violations:
         raise AnalysisError(f"{EN}: only {n} thread-local hand-over sites found (get_local_overrides / set_local_overrides expected)")
+
+
+
+def _handover_complete(ctx, mod):
+    """Env.get_swapped_values() is what ProcProxyThread / PopenThread read before start() (R3).  If it drops or rewrites
+    entries, the worker's view differs from the spawner's: a variable masked with DELETE_VAR shows its global value again."""
+    classes = {c: class_methods(mod.cls(c)) for c in ("Env", "InternalEnvironDict")}
+    tl = set()
+    views = set()
+    for c, ms in classes.items():
+        init = ms.get("__init__")
+        t_ = {t.attr for x in (walk_local(init) if init is not None else []) if isinstance(x, ast.Assign) and isinstance(x.value, ast.Call) and call_name(x.value) == "threading.local" for t in x.targets if isinstance(t, ast.Attribute) and unparse(t.value) == "self"}
+        tl |= t_
+        views |= {nm for nm, f in ms.items() if any("property" in unparse(d) for d in f.decorator_list) and any(isinstance(a, ast.Attribute) and a.attr in t_ and unparse(a.value) == "self" for a in ast.walk(f))}
+
+    def rooted(e):
+        while isinstance(e, (ast.Attribute, ast.Subscript)):
+            if isinstance(e, ast.Attribute) and unparse(e.value) == "self" and (e.attr in tl or e.attr in views):
+                return True
+            e = e.value
+        return False
+
+    sites = []
+
+    def whole(e, fn, depth=0):
+        """e evaluates to a complete copy of (or the whole of) a thread-local container"""
+        if depth > 4:
+            return False
+        if isinstance(e, ast.Name):
+            ds = df.all_defs(fn).get(e.id, [])
+            return len(ds) == 1 and ds[0].value is not None and whole(ds[0].value, fn, depth + 1)
+        inner = _uncopy(e)
+        if inner is not e:
+            return rooted(inner) or whole(inner, fn, depth + 1)
+        if rooted(e):
+            return True
+        if isinstance(e, ast.Call) and isinstance(e.func, ast.Attribute) and not e.args and not e.keywords:
+            for c, ms in classes.items():
+                m = ms.get(e.func.attr)
+                if m is not None and unparse(e.func.value) in ("self", "self._d"):
+                    rs = [r for r in walk_local(m) if isinstance(r, ast.Return) and r.value is not None]
+                    ok = bool(rs)
+                    for r in rs:
+                        o = whole(r.value, m, depth + 1)
+                        sites.append((f"{c}.{e.func.attr}", r, o))
+                        ok = ok and o
+                    return ok
+        return False
+
+    g = classes["Env"].get("get_swapped_values")
+    if g is None:
+        raise AnchorMissing(f"{EN}:Env.get_swapped_values")
+    rs = [r for r in walk_local(g) if isinstance(r, ast.Return) and r.value is not None]
+    if not rs:
+        raise AnalysisError(f"{EN}:Env.get_swapped_values returns nothing")
+    for r in rs:
+        sites.append(("Env.get_swapped_values", r, whole(r.value, g)))
+    seen = set()
+    for q, r, ok in sites:
+        if (q, r.lineno) in seen:
+            continue
+        seen.add((q, r.lineno))
+        ctx.ob("R6", f"{EN}:{q}", f"`{short(r, 60)}` hands over the whole thread-local view (a plain copy: no entry - a DELETE_VAR mask in particular - is filtered out or rewritten on the way to the worker thread)", ok, key=f"{q}|handover-not-whole", where=loc(r))
 
 
 def _through_predicates(facts, meths):
@@ -118,6 +181,7 @@ def check(ctx):
     ctx.rule("R1", "Env.swap captures each key before setting it, writes only thread-locally, and restores every captured key and the overlay in a finally that every exit passes", floor=8)
     ctx.rule("R2", "every read path compares a value taken from an overlay or the store with DELETE_VAR before returning/yielding/exporting it, and resolves a key by the top-most layer that contains it", floor=8)
     ctx.rule("R3", "worker threads read the spawner's swapped values before start() and install them before any other environment access in run()", floor=4)
+    ctx.rule("R6", "what a worker thread inherits is the spawning thread's whole private view: the hand-over accessor returns a complete copy of the thread-local overrides - masks (DELETE_VAR) included, nothing filtered out or rewritten", floor=2)
     ctx.rule("R5", "thread-local state crosses a thread boundary only as a copy: no public method of Env / its dict hands out a thread-local container itself, and none installs a caller's object as thread-local state", floor=2)
     ctx.rule("R4", "thread-local environment data does not flow into state shared between threads", floor=1)
 
@@ -343,6 +407,7 @@ def check(ctx):
     copies = glo is not None and any(isinstance(r, ast.Return) and r.value is not None and _uncopy(r.value) is not r.value and "_local" in unparse(_uncopy(r.value)) for r in walk_local(glo))
     ok = "_local" in im and "self._thread_local.__dict__" in unparse(im["_local"]) and copies
     ctx.ob("R3", f"{EN}:InternalEnvironDict", "the override layer is a threading.local dict; the view handed to a worker is a copy", ok, key="ied|local-shape")
+    _handover_complete(ctx, mod)
     _thread_local_boundary(ctx, mod)
     slo = im.get("set_local_overrides")
     ok = slo is not None and "clear()" in unparse(slo) and "update(" in unparse(slo)
